@@ -39,12 +39,12 @@ theorem wsdl_deterministic (e₁ e₂ : Enum) (h₁ : e₁.Valid) (h₂ : e₂.V
   gen_enum_irrelevant facts07 (by decide) (by decide) e₁ e₂ h₁ h₂ _ url
 
 /-- the interface as `add_method` leaves it -/
-abbrev populated (I : IState) : IState := I.addMethodFaults facts07
+abbrev populated (I : IState) : IState := (I.resolveHandlers facts07).addMethodFaults facts07
 
 /-- `add_method` puts every declared fault into the target namespace, whatever `__namespace__` it declares: the
     fault clause of the contract holds by construction -/
 theorem faults_in_tns (I : IState) (h : (populated I).wfCore = true) : (populated I).wf = true :=
-  wf_of_core_forced facts07 (by decide) I h
+  wf_of_core_forced facts07 (by decide) (I.resolveHandlers facts07) h
 
 /-! ### closed -/
 
@@ -95,8 +95,21 @@ theorem prefixes_injective (e : Enum) (I : IState) (url : String) (d : Doc)
     (h₁ : d.prefmap.lookup ns₁ = some pf) (h₂ : d.prefmap.lookup ns₂ = some pf) : ns₁ = ns₂ := by
   obtain ⟨schemas, tr, _, rfl⟩ := gen_ok facts07 (by decide) e (populated I) url d h
   have hw := wf_unpack (populated I) (faults_in_tns I hwf)
-  exact prefix_injective _ (touchAll_inv _ (touchAll_inv _ (init_inv (populated I) hw.prefNodup hw.tnsFresh hw.tnsPref) _) _)
+  exact prefix_injective _ (touchAll_inv _ (touchAll_inv _ hw.prefsInv _) _)
     ns₁ ns₂ pf h₁ h₂
+
+/-- the `while pref in self.nsmap` loop of `get_namespace_prefix` finds an unused `s<k>` **for every pre-existing
+    prefix table** (static prefixes, prefixes pinned by the application, earlier allocations) -/
+theorem prefix_search_finds_free (taken : List Pref) (counter : Nat) :
+    Pref.gen (firstFree taken (taken.length + 1) counter) ∉ taken :=
+  firstFree_free taken counter
+
+/-- starting from any consistent prefix table, after any sequence of `get_namespace_prefix` calls two namespaces
+    never share a prefix and every written prefix is declared for its namespace -/
+theorem prefixes_injective_any_initial (p : Prefs) (h : p.Inv) (calls : List String) (ns₁ ns₂ : String) (pf : Pref)
+    (h₁ : (touchAll p calls).prefmap.lookup ns₁ = some pf) (h₂ : (touchAll p calls).prefmap.lookup ns₂ = some pf) :
+    ns₁ = ns₂ ∧ (touchAll p calls).nsmap.lookup pf = some ns₁ :=
+  ⟨prefix_injective _ (touchAll_inv p h calls) ns₁ ns₂ pf h₁ h₂, (touchAll_inv p h calls).back _ _ h₁⟩
 
 /-! ### every exposed method is exactly one operation -/
 
@@ -122,22 +135,23 @@ theorem ops_exactly_once (e : Enum) (I₀ : IState) (url : String) (d : Doc) (h 
 /-- a concrete application (extracted from the real Interface of a generated spyne application) -/
 def exI : IState :=
   { tns := "tns.main", name := "App",
+    pins := [],
     staticNs := [("xs", "http://www.w3.org/2001/XMLSchema"), ("xsi", "http://www.w3.org/2001/XMLSchema-instance"), ("wsdlsoap11", "http://schemas.xmlsoap.org/wsdl/soap/"), ("wsdl", "http://schemas.xmlsoap.org/wsdl/")],
     classes := [
-      ⟨"<class 'spyne.model.primitive.string.Unicode'>", "http://www.w3.org/2001/XMLSchema", "string", .builtin, none, [], none, .unset, none, []⟩,
-      ⟨"<class 'c07app.H'>", "ns.h", "H", .complex, none, [⟨"tok", none, 0, false, 0, none, (some "0"), none, true⟩], none, .unset, none, []⟩,
-      ⟨"<class 'c07app.Oops'>", "tns.main", "Oops", .complex, none, [], none, .unset, none, []⟩,
-      ⟨"<class 'spyne.model.primitive.string.Unicode'>", "ns.a", "A_xType", .simple, (some 0), [], none, .unset, none, []⟩,
-      ⟨"<class 'spyne.model.primitive.number.Integer'>", "http://www.w3.org/2001/XMLSchema", "integer", .builtin, none, [], none, .unset, none, []⟩,
-      ⟨"<class 'spyne.model.complex.XmlAttribute'>", "tns.main", "XmlAttribute", .builtin, none, [], none, .unset, none, []⟩,
-      ⟨"<class 'c07app.A'>", "ns.a", "A", .complex, none, [⟨"x", none, 3, false, 0, none, (some "0"), none, true⟩, ⟨"n", none, 5, true, 4, none, (some "0"), none, true⟩], none, .unset, none, []⟩,
-      ⟨"<class 'c07app.A'>", "ns.a", "A", .complex, none, [⟨"x", none, 3, false, 0, none, (some "0"), none, true⟩, ⟨"n", none, 5, true, 4, none, (some "0"), none, true⟩], none, .unset, none, []⟩,
-      ⟨"<class 'spyne.model.complex.Array'>", "ns.a", "AArray", .complex, none, [⟨"A", none, 7, false, 0, none, (some "0"), (some "unbounded"), true⟩], none, .unset, none, []⟩,
-      ⟨"<class 'c07app.B'>", "ns.b", "B", .complex, (some 6), [⟨"l", none, 8, false, 0, none, (some "0"), none, true⟩], none, .unset, none, []⟩,
-      ⟨"<class 'spyne.model.complex.f'>", "tns.main", "f", .complex, none, [⟨"b", none, 9, false, 0, none, (some "0"), none, true⟩], none, .unset, none, []⟩,
-      ⟨"<class 'spyne.model.complex.fResponse'>", "tns.main", "fResponse", .complex, none, [⟨"fResult", none, 6, false, 0, none, (some "0"), none, true⟩], none, .unset, none, []⟩,
-      ⟨"<class 'spyne.model.primitive.string.Unicode'>", "http://www.w3.org/2001/XMLSchema", "string", .builtin, none, [], (some "g"), .dflt, none, []⟩,
-      ⟨"<class 'spyne.model.primitive.string.Unicode'>", "http://www.w3.org/2001/XMLSchema", "string", .builtin, none, [], (some "gResponse"), .dflt, none, []⟩],
+      ⟨"<class 'spyne.model.primitive.string.Unicode'>", "http://www.w3.org/2001/XMLSchema", "string", .builtin, none, [], none, .unset, none, [], false, false⟩,
+      ⟨"<class 'c07app.H'>", "ns.h", "H", .complex, none, [⟨"tok", none, 0, false, 0, none, (some "0"), none, true⟩], none, .unset, none, [], false, false⟩,
+      ⟨"<class 'c07app.Oops'>", "tns.main", "Oops", .complex, none, [], none, .unset, none, [], false, false⟩,
+      ⟨"<class 'spyne.model.primitive.string.Unicode'>", "ns.a", "A_xType", .simple, (some 0), [], none, .unset, none, [], false, false⟩,
+      ⟨"<class 'spyne.model.primitive.number.Integer'>", "http://www.w3.org/2001/XMLSchema", "integer", .builtin, none, [], none, .unset, none, [], false, false⟩,
+      ⟨"<class 'spyne.model.complex.XmlAttribute'>", "tns.main", "XmlAttribute", .builtin, none, [], none, .unset, none, [], false, false⟩,
+      ⟨"<class 'c07app.A'>", "ns.a", "A", .complex, none, [⟨"x", none, 3, false, 0, none, (some "0"), none, true⟩, ⟨"n", none, 5, true, 4, none, (some "0"), none, true⟩], none, .unset, none, [], false, false⟩,
+      ⟨"<class 'c07app.A'>", "ns.a", "A", .complex, none, [⟨"x", none, 3, false, 0, none, (some "0"), none, true⟩, ⟨"n", none, 5, true, 4, none, (some "0"), none, true⟩], none, .unset, none, [], false, false⟩,
+      ⟨"<class 'spyne.model.complex.Array'>", "ns.a", "AArray", .complex, none, [⟨"A", none, 7, false, 0, none, (some "0"), (some "unbounded"), true⟩], none, .unset, none, [], false, false⟩,
+      ⟨"<class 'c07app.B'>", "ns.b", "B", .complex, (some 6), [⟨"l", none, 8, false, 0, none, (some "0"), none, true⟩], none, .unset, none, [], false, false⟩,
+      ⟨"<class 'spyne.model.complex.f'>", "tns.main", "f", .complex, none, [⟨"b", none, 9, false, 0, none, (some "0"), none, true⟩], none, .unset, none, [], false, false⟩,
+      ⟨"<class 'spyne.model.complex.fResponse'>", "tns.main", "fResponse", .complex, none, [⟨"fResult", none, 6, false, 0, none, (some "0"), none, true⟩], none, .unset, none, [], false, false⟩,
+      ⟨"<class 'spyne.model.primitive.string.Unicode'>", "http://www.w3.org/2001/XMLSchema", "string", .builtin, none, [], (some "g"), .dflt, none, [], false, false⟩,
+      ⟨"<class 'spyne.model.primitive.string.Unicode'>", "http://www.w3.org/2001/XMLSchema", "string", .builtin, none, [], (some "gResponse"), .dflt, none, [], false, false⟩],
     deps := [(1, [0]), (0, []), (2, []), (10, [9]), (9, [8, 6]), (6, [5, 3]), (3, [0]), (5, []), (4, []), (8, [7]), (11, [6])],
     imports := [("tns.main", ["ns.a", "ns.b", "ns.h"]), ("ns.h", []), ("ns.b", ["ns.a"]), ("ns.a", ["tns.main"])],
     services := [⟨"S", ["P1", "P2"], [⟨"f", "f", 10, 11, (some [1]), none, [2], (some "P1")⟩, ⟨"g", "g", 12, 13, (some [1]), none, [], (some "P2")⟩]⟩],
@@ -151,15 +165,16 @@ theorem hashseed_witness :
 /-- two complex types in two namespaces, each with a restricted string member (same `repr`, same tier) -/
 def exT : IState :=
   { tns := "tns.main", name := "App",
+    pins := [],
     staticNs := [("xs", "http://www.w3.org/2001/XMLSchema"), ("wsdl", "http://schemas.xmlsoap.org/wsdl/")],
     classes := [
-      ⟨"<class 'spyne.model.primitive.string.Unicode'>", "http://www.w3.org/2001/XMLSchema", "string", .builtin, none, [], none, .unset, none, []⟩,
-      ⟨"<class 'spyne.model.primitive.string.Unicode'>", "ns.p", "P_xType", .simple, (some 0), [], none, .unset, none, []⟩,
-      ⟨"<class 'c07app.P'>", "ns.p", "P", .complex, none, [⟨"x", none, 1, false, 0, none, (some "0"), none, true⟩], none, .unset, none, []⟩,
-      ⟨"<class 'spyne.model.primitive.string.Unicode'>", "ns.q", "Q_xType", .simple, (some 0), [], none, .unset, none, []⟩,
-      ⟨"<class 'c07app.Q'>", "ns.q", "Q", .complex, none, [⟨"x", none, 3, false, 0, none, (some "0"), none, true⟩], none, .unset, none, []⟩,
-      ⟨"<class 'spyne.model.complex.f'>", "tns.main", "f", .complex, none, [⟨"p", none, 2, false, 0, none, (some "0"), none, true⟩, ⟨"q", none, 4, false, 0, none, (some "0"), none, true⟩], none, .unset, none, []⟩,
-      ⟨"<class 'spyne.model.complex.fResponse'>", "tns.main", "fResponse", .complex, none, [⟨"fResult", none, 0, false, 0, none, (some "0"), none, true⟩], none, .unset, none, []⟩],
+      ⟨"<class 'spyne.model.primitive.string.Unicode'>", "http://www.w3.org/2001/XMLSchema", "string", .builtin, none, [], none, .unset, none, [], false, false⟩,
+      ⟨"<class 'spyne.model.primitive.string.Unicode'>", "ns.p", "P_xType", .simple, (some 0), [], none, .unset, none, [], false, false⟩,
+      ⟨"<class 'c07app.P'>", "ns.p", "P", .complex, none, [⟨"x", none, 1, false, 0, none, (some "0"), none, true⟩], none, .unset, none, [], false, false⟩,
+      ⟨"<class 'spyne.model.primitive.string.Unicode'>", "ns.q", "Q_xType", .simple, (some 0), [], none, .unset, none, [], false, false⟩,
+      ⟨"<class 'c07app.Q'>", "ns.q", "Q", .complex, none, [⟨"x", none, 3, false, 0, none, (some "0"), none, true⟩], none, .unset, none, [], false, false⟩,
+      ⟨"<class 'spyne.model.complex.f'>", "tns.main", "f", .complex, none, [⟨"p", none, 2, false, 0, none, (some "0"), none, true⟩, ⟨"q", none, 4, false, 0, none, (some "0"), none, true⟩], none, .unset, none, [], false, false⟩,
+      ⟨"<class 'spyne.model.complex.fResponse'>", "tns.main", "fResponse", .complex, none, [⟨"fResult", none, 0, false, 0, none, (some "0"), none, true⟩], none, .unset, none, [], false, false⟩],
     deps := [(5, [2, 4]), (2, [1]), (1, [0]), (0, []), (4, [3]), (3, [0]), (6, [0])],
     imports := [("tns.main", ["ns.p", "ns.q"]), ("ns.p", []), ("ns.q", [])],
     services := [⟨"S", [], [⟨"f", "f", 5, 6, none, none, [], none⟩]⟩],
@@ -200,6 +215,27 @@ theorem message_dedup_witness :
     (match build { facts07 with messageDedup := .perService } Enum.id exM "u" with
       | .ok d => d.wellDefined | _ => true) = false := by decide +kernel
 
+/-- `exI` whose class `A` lists a plain mixin before `ComplexModel`, with `s0` and `s1` pinned by the application -/
+def exX : IState :=
+  { exI with classes := exI.classes.map (fun c => if c.tn = "A" then { c with mixinFirst := true } else c),
+             pins := [(.gen 0, "ns.b"), (.gen 1, "ns.h")] }
+
+/-- `exI` whose class `A` lists a plain mixin after `ComplexModel` -/
+def exY : IState :=
+  { exI with classes := exI.classes.map (fun c => if c.tn = "A" then { c with mixinLast := true } else c) }
+
+/-- with the bases tried from the last one (`reversed(cls.__bases__)`), `class A(ComplexModel, Mixin)` gets no
+    complexType and `type="..:A"` dangles -/
+theorem handler_lookup_witness_last :
+    (match build { facts07 with handlerLookup := .lastBase } Enum.id exY "u" with
+      | .ok d => d.closed | _ => true) = false := by decide +kernel
+
+/-- if the handler tables tried the first base first, `class A(Mixin, ComplexModel)` would get no complexType and
+    `type="..:A"` would dangle -/
+theorem handler_lookup_witness :
+    (match build { facts07 with handlerLookup := .firstBase } Enum.id exX "u" with
+      | .ok d => d.closed | _ => true) = false := by decide +kernel
+
 /-! ### non-vacuity: the hypotheses hold for a concrete application (2 port types, header in a foreign namespace,
     inheritance across namespaces, array, attribute, restricted simple type, fault, bare method) -/
 
@@ -215,6 +251,10 @@ example : (populated exT).wfCore = true ∧ exT.wfOps = true := by decide +kerne
 example : (populated exM).wfCore = true ∧ (populated exM).wfOps = true := by decide +kernel
 example : (match build facts07 Enum.id exM "u" with | .ok d => d.closed && d.wellDefined && d.messages.length == 6 | _ => false) = true := by
   decide +kernel
+example : (populated exX).wfCore = true ∧ (populated exX).wfOps = true := by decide +kernel
+example : (match build facts07 Enum.id exX "u" with
+    | .ok d => d.closed && d.wellDefined && d.nsdecl.lookup (.gen 2) == some "ns.a" && d.nsdecl.lookup (.gen 0) == some "ns.b"
+    | _ => false) = true := by decide +kernel
 example : Enum.rev.Valid := Enum.rev_valid
 example : exI.deps ≠ [] := by decide
 
